@@ -2390,6 +2390,35 @@ def open_args_agreement(cx: Cx, ob: Ob, writers: list, readers: list, what: str)
             )
 
 
+LOSSY_ERROR_HANDLERS = {"ignore", "replace", "backslashreplace", "xmlcharrefreplace", "namereplace"}
+
+
+def writers_encode_faithfully(cx: Cx, ob: Ob, writers: list) -> None:
+    """No writer opens its file with an ``errors=`` handler that REPLACES what the encoding cannot express: the file
+    then holds other characters ('?', '\\xe9', '&#233;' ..) than the text that was produced, and none of the readers
+    undoes that - a prefix, URI prefix or pattern with such a character does not read back."""
+    from .terms import is_const, show
+
+    for q in writers:
+        fn = cx.model.functions.get(q)
+        if fn is None:
+            continue
+        for c, m, args, line in _open_calls(cx, fn):
+            if m not in ("w", "?"):
+                continue
+            e = args.get("errors")
+            ob.site(f"{where(fn, line)} {fn.qualname}", f"write {show(c)[:40]} errors={show(e) if e is not None else 'default'}")
+            if e is not None and is_const(e) and e[1] in LOSSY_ERROR_HANDLERS:
+                enc = args.get("encoding")
+                ob.violate(
+                    fn.qualname,
+                    where(fn, line),
+                    f"{fn.name} writes its file with errors={e[1]!r} (encoding={show(enc) if enc is not None else 'default'}): every character the encoding cannot express is replaced by other text in the file, which no reader turns back - a converter with such a character in a prefix, URI prefix or pattern does not read back to itself",
+                    witness="Record(prefix='é', uri_prefix='http://ex/é/'): the written file holds a replacement, the loaded converter another name",
+                    detail=f"errors-handler:{e[1]}",
+                )
+
+
 STR_ALTERING_CONFIG = {"str_strip_whitespace", "str_to_lower", "str_to_upper", "str_max_length", "str_min_length", "coerce_numbers_to_str"}
 STR_ALTERING_CONSTRAINTS = {"strip_whitespace", "to_lower", "to_upper", "max_length", "min_length", "pattern"}
 
@@ -2607,6 +2636,21 @@ def constructor_owns_records(cx: Cx, ob: Ob) -> None:
         fresh = (op(v) == "call" and v[1] in MATERIALISE) or (op(v) == "comp" and v[1] != "gen") or op(v) in ("list", "tuple", "new")
         if not fresh and v != rp:
             ob.undecide(f"self.records is assigned `{show(v)[:60]}`: not recognisably a fresh list")
+        # every record that is given is kept: a list built from the argument under a test leaves records out - they
+        # are in no table, and what was written from a converter that held them does not read back
+        if op(v) in ("new", "comp"):
+            segs = list_segments(s, v, Prov(s))
+            for sg in segs or ():
+                if sg[0] == "each" and sg[3] and any(x == rp for x in subterms(sg[1])):
+                    cond_txt = show(sg[3][0][0])[:60] if isinstance(sg[3][0], tuple) else ""
+                    ob.violate(
+                        init.qualname,
+                        init.where,
+                        f"Converter.__init__ keeps only the records for which `{cond_txt}`: records of the collection it is given are silently left out of self.records (and of every table) - the converter no longer knows their prefixes, and e.g. a context written with include_synonyms=True (one entry per synonym, read back leniently) loses all but one entry per URI prefix",
+                        witness="Converter([Record(prefix='a', uri_prefix='u'), Record(prefix='b', uri_prefix='u')], strict=False).get_prefixes() lacks 'b'",
+                        detail="records-filtered",
+                    )
+                    break
 
 
 def _projection(cx: Cx, key):
